@@ -1,4 +1,4 @@
-use crate::internals::stream_controller::*;
+use crate::internals::{function_wrapper::*, stream_controller::*};
 use crate::prelude::*;
 
 #[derive(Clone)]
@@ -6,7 +6,9 @@ pub struct Tap<'a, Item>
 where
   Item: Clone + Send + Sync,
 {
-  tap_observer: Observer<'a, Item>,
+  tap_next: FunctionWrapper<'a, Item, ()>,
+  tap_error: FunctionWrapper<'a, RxError, ()>,
+  tap_complete: FunctionWrapper<'a, (), ()>,
 }
 
 impl<'a, Item> Tap<'a, Item>
@@ -24,13 +26,29 @@ where
     Complete: Fn() + Send + Sync + 'a,
   {
     Tap {
-      tap_observer: Observer::new(next, error, complete),
+      tap_next: FunctionWrapper::new(next),
+      tap_error: FunctionWrapper::new(error),
+      tap_complete: FunctionWrapper::new(move |_| complete()),
     }
   }
 
   pub fn execute(&self, source: Observable<'a, Item>) -> Observable<'a, Item> {
-    let tap_observer = self.tap_observer.clone();
+    let tap_next = self.tap_next.clone();
+    let tap_error = self.tap_error.clone();
+    let tap_complete = self.tap_complete.clone();
     Observable::create(move |s| {
+      // one tap observer per subscription: its terminal state must not be
+      // shared between subscribers
+      let tap_observer = {
+        let tap_next = tap_next.clone();
+        let tap_error = tap_error.clone();
+        let tap_complete = tap_complete.clone();
+        Observer::new(
+          move |x| tap_next.call(x),
+          move |e| tap_error.call(e),
+          move || tap_complete.call(()),
+        )
+      };
       let sctl = StreamController::new(s);
       let source_next = source.clone();
 
